@@ -676,6 +676,20 @@ impl TypeSpace {
             })
             .collect::<Result<Vec<_>>>()?;
 
+        // An untagged enum with more than one variant without data would not
+        // be usable: they're indistinguishable.
+        if variant_details
+            .iter()
+            .filter(|(details, _)| matches!(details, VariantDetails::Simple))
+            .count()
+            > 1
+        {
+            return Err(crate::Error::InvalidSchema {
+                type_name: tmp_type_name,
+                reason: "multiple indistinguishable variants".to_string(),
+            });
+        }
+
         let variants = variant_details
             .into_iter()
             .map(|(details, variant_name)| {
